@@ -284,7 +284,24 @@ fn peg_case(l: &mut Local, rng: &mut Rng) {
 
 fn search_case(l: &mut Local, rng: &mut Rng, threads: usize, reps: usize) {
     // configurations where some seeds fail and some succeed
-    let c = match rng.below(4) {
+    let large = threads >= 2 && rng.chance(0.15);
+    let c = match if large { 4 } else { rng.below(4) } {
+        // large configurations: one construction takes milliseconds, so several seeds are in flight at the same time
+        // when the first one finishes (a search that stops the others must not take their unfinished matrices)
+        4 => {
+            let nrows = rng.range(60, 200);
+            MnConfig {
+                nrows,
+                ncols: 2 * nrows,
+                wr: 7,
+                wc: 3,
+                backtrack_cols: 0,
+                backtrack_trials: 0,
+                min_girth: Some(6),
+                girth_trials: rng.range(10, 40),
+                fill_policy: FillPolicy::Uniform,
+            }
+        }
         // marginal configurations: a seed only succeeds by spending girth retries (or backtracks), and a fair share
         // of the seeds fails, so a search that lets one seed's spent budget leak into the next one returns nothing
         3 => {
@@ -332,8 +349,8 @@ fn search_case(l: &mut Local, rng: &mut Rng, threads: usize, reps: usize) {
         _ => gen_mn(rng),
     };
     let start = rng.next_u64() >> 16;
-    let tries = rng.range(1, 48) as u64;
-    l.count(&format!("search_config_class_{}", if c.nrows >= 12 { "marginal" } else { "small" }));
+    let tries = if large { rng.range(4, 16) as u64 } else { rng.range(1, 48) as u64 };
+    l.count(&format!("search_config_class_{}", if c.nrows >= 60 { "large" } else if c.nrows >= 12 { "marginal" } else { "small" }));
     // sequential oracle: which seeds of the range succeed, and with what matrix
     let seq: Vec<Option<SparseMatrix>> = (start..start + tries).map(|s| c.run(s).ok()).collect();
     let ok_seeds: Vec<u64> = (0..tries).filter(|&i| seq[i as usize].is_some()).map(|i| start + i).collect();
@@ -384,7 +401,7 @@ fn search_case(l: &mut Local, rng: &mut Rng, threads: usize, reps: usize) {
 }
 
 pub fn run(run: &mut Run) {
-    run.rule = "MacKay-Neal: rows 2..12, cols 2..30, wc 1..4, wr from tight to generous, backtracking 0..4 x 0..5, min girth None or 4..12 (odd values included), girth trials 0..50, both policies, random seeds; on Ok: size, every column weight = wc (from the row view AND the column view), row weights <= wr, own-oracle girth >= min_girth, uniform/no-girth => row weights differ by <= 1; run(seed) twice equal; 64 seeds of a large-choice configuration give >= 2 distinct matrices. PEG: rows 1..12, cols 1..30 (2 % of the cases up to 40 x 120), wc 1..5 and 0: column weight = min(wc, rows) and REPLAY of every edge in insertion order against an own BFS on the graph at that time (unreachable, else maximal distance; least degree among those). Search (small configurations and marginal 12..20-row girth-6 configurations whose successful seeds spend retries): result compared with a sequential re-run of the whole seed range (tries <= 48) inside rayon pools of 1/2/4/16 threads, repeated; non-trivial = MN result changed by the girth constraint or succeeding only thanks to backtracking / PEG with wc >= 2 / search range with >= 2 successful seeds".into();
+    run.rule = "MacKay-Neal: rows 2..12, cols 2..30, wc 1..4, wr from tight to generous, backtracking 0..4 x 0..5, min girth None or 4..12 (odd values included), girth trials 0..50, both policies, random seeds; on Ok: size, every column weight = wc (from the row view AND the column view), row weights <= wr, own-oracle girth >= min_girth, uniform/no-girth => row weights differ by <= 1; run(seed) twice equal; 64 seeds of a large-choice configuration give >= 2 distinct matrices. PEG: rows 1..12, cols 1..30 (2 % of the cases up to 40 x 120), wc 1..5 and 0: column weight = min(wc, rows) and REPLAY of every edge in insertion order against an own BFS on the graph at that time (unreachable, else maximal distance; least degree among those). Search (small configurations, marginal 12..20-row girth-6 configurations whose successful seeds spend retries, and 60..200-row configurations whose constructions overlap in time): result compared with a sequential re-run of the whole seed range (tries <= 48) inside rayon pools of 1/2/4/16 threads, repeated; non-trivial = MN result changed by the girth constraint or succeeding only thanks to backtracking / PEG with wc >= 2 / search range with >= 2 successful seeds".into();
     run.assumptions = vec!["PEG insertion order within a column is read from the column iterator (push order)".into()];
     let miri = cfg!(miri);
     let n_mn = if miri { 6 } else { run.tier.n(500_000, 15_000_000) };
